@@ -73,6 +73,21 @@ func checkWriterTree(c *hx.Case, want *ast.Body, syn *hclsyntax.Body, got *hclwr
 		if strings.Join(wantVars, ",") != strings.Join(gotVars, ",") {
 			c.Failf("writer-variables", "%s.%s: writer Variables() = %v, hclsyntax Variables() = %v", path, a.Name, gotVars, wantVars)
 		}
+		// independently of hclsyntax: the referenced roots are the free variables of the tree
+		gotRoots := map[string]bool{}
+		for _, tr := range ga.Expr().Variables() {
+			// the first token of a reference is its root name
+			for _, tk := range tr.BuildTokens(nil) {
+				if tk.Type == hclsyntax.TokenIdent {
+					gotRoots[string(tk.Bytes)] = true
+					break
+				}
+			}
+		}
+		free := ast.FreeVars(a.Expr)
+		if setString(gotRoots) != setString(free) {
+			c.Failf("writer-variables-vs-tree", "%s.%s: writer Variables() has the roots {%s}, the expression refers to {%s}", path, a.Name, setString(gotRoots), setString(free))
+		}
 	}
 	blocks := got.Blocks()
 	wb := want.Blocks()
